@@ -27,7 +27,13 @@ RULE = ("random indexed collections built by the real IndexedInstrumentsBuilder:
         "with 30-60 instruments over 12 assets with multi-digit names of which one is a prefix of another (1, 10, 100, 11 ...); ordinary collections; all of it together - each with the full sweep, 20/30 random ops, "
         "2 link selections of route ops, and per link: cancel / open with payload 0 through oreq, mgr and route, order events and snapshots in the three non-Open active states, the three connectivity errors, "
         "boundary payloads for trade / bal, and indices at the top of usize on fexid / fan / fin / oreq / route. 3 committed corpus cases (corpus/C04: D1 payload classes, D2 assets outside every underlying, "
-        "D3 five exchanges + base = quote + prefix names + usize::MAX indices)")
+        "D3 five exchanges + base = quote + prefix names + usize::MAX indices). "
+        "CONFIGURATION-SHAPE FAMILY (`cfg` cases, max(6, N/6) of them, own seed; op `sroute <n> <e>*n`): the same ExecutionBuilder set-up (random and input-domain collections, link selections as for `route`: "
+        "first exchange link-less, shuffled call order, spoiled lists; plus all linked in reverse order, ONLY THE LAST exchange linked, NO exchange linked) but with live clients whose account is NOT empty at start-up: "
+        "account_snapshot answers one balance per asset name and one instrument entry per instrument name the client was ASKED about (amount = 1000 x exchange id + position + 1) and both account_snapshot and "
+        "account_stream record the name lists ExecutionManager::init handed them; observed per linked exchange: those two name lists and the indexed initial snapshot that arrived on the merged account channel "
+        "(event exchange index, snapshot exchange index, asset index : amount, instrument indices). Before, every client of the builder had an empty account and ignored what it was asked about, and the "
+        "route op dropped the snapshot events. 2 committed corpus cases (corpus/C04/cfg_1: three exchanges, first / all but last / none linked, duplicate and absent add; cfg_2: five exchanges with settlement / quantity-unit assets)")
 ASSUMPTIONS = [
     "the indexed collection has key = position for exchanges, assets and instruments (what IndexedInstrumentsBuilder::build produces; property C11) - hypothesis Indexed",
     "exchange ids of the collection are pairwise distinct, and on the exchange of the link no two assets and no two instruments share a name_exchange - rest of hypothesis WF; "
